@@ -229,7 +229,7 @@ def main():
 
     # ---------------------------------------------------------------- induction lemmas: schemas checked by Lean
     lean_map = {"tree_induction": ("Lemmas.lean", ["tree_induction", "all_nodes_below_root"]), "count-of-a-singleton-mask": ("Lemmas.lean", ["count_singleton"]),
-                "cumsum-of-nonnegatives": ("Lemmas.lean", ["cumsum_monotone"]), "traverse client rule": ("TraverseRule.lean", ["inv_of_reach", "traverse_rule_sound"])}
+                "cumsum-of-nonnegatives": ("Lemmas.lean", ["cumsum_monotone"]), "count-of-two-marked-positions": ("Lemmas.lean", ["count_monotone", "count_two"]), "traverse client rule": ("TraverseRule.lean", ["inv_of_reach", "traverse_rule_sound"])}
     used_files = {}
     for a_ in assumptions:
         if a_.startswith("assumed-lemma:"):
